@@ -33,7 +33,10 @@ def render(doc, rng):
         elif b[0] == "T":
             # the paragraph may begin with any inline construct (every one of them has to close the open lists)
             opener = rng.choice(LINE_OPENERS) if rng.random() < 0.4 else ""
-            out.append("%sP%d %s\n\n" % (opener, b[1], rng.choice(FILLERS)))
+            if not opener and rng.random() < 0.15:
+                opener = " "                      # an indented (preformatted) line
+            # most paragraphs end in a blank line, some are directly followed by the next block
+            out.append("%sP%d %s%s" % (opener, b[1], rng.choice(FILLERS), "\n\n" if rng.random() < 0.7 else "\n"))
         elif b[0] == "HR":
             out.append("----\n")
         else:
